@@ -136,7 +136,9 @@ type CheckDef struct {
 	ReachKeys  []string // stats that must be > 0 in the thorough tier (self-test, exit 2)
 	Assumptions []string
 	NeedsRace  bool
+	RaceFrac   float64 // share of scenario indices (the last ones) executed by the -race worker
 	Chunk      int
+	TimeoutS   int // chunk watchdog (seconds), 0 = default
 }
 
 var checks = map[string]*CheckDef{}
@@ -294,3 +296,16 @@ func shortPanic(s string) string {
 }
 
 func nowMS(t0 time.Time) float64 { return float64(time.Since(t0).Microseconds()) / 1000 }
+
+// genTotal is the number of scenarios of the current tier (needed to place the race stratum).
+var genTotal = 0
+var genRaceFrac = 0.0
+
+func raceFrom(total int, frac float64) int {
+	if frac <= 0 {
+		return total
+	}
+	return total - int(float64(total)*frac)
+}
+
+func isRaceIdx(idx int) bool { return genTotal > 0 && idx >= raceFrom(genTotal, genRaceFrac) }
